@@ -61,11 +61,13 @@ def validate(ctx, lines, mode, tag, max_rejects=8):
 
 
 def partition(lines):
-    main, side = [], []
+    """(behaviour segments, plan segments, candidates of recorded findings): validated separately so
+    that rejections of one group cannot exhaust the reject budget of another."""
+    beh, plan, side = [], [], []
     for seg in split_segments(lines, is_reset):
-        h = json.loads(seg[0])
-        (side if h.get("i") in ("amplify", "nomax") else main).extend(seg)
-    return main, side
+        i = json.loads(seg[0]).get("i")
+        (side if i in ("amplify", "nomax") else plan if i in ("plan", "hang") else beh).extend(seg)
+    return beh, plan, side
 
 
 def generate(ctx, maxlen):
@@ -94,19 +96,19 @@ def check(ctx):
     summ, _ = harness(ctx, "decoders", harness_args(ctx, ctx.path("behs.jsonl"), ctx.path("trace.ndjson")), timeout=1700)
     log("HARNESS: %s (build %ss)" % (json.dumps(summ)[:900], build_s))
     lines = read_lines(ctx.path("trace.ndjson"))
-    main, side = partition(lines)
+    beh, plan, side = partition(lines)
     violations, nseg, nev = [], 0, 0
-    for part, tag in ((main, "m"), (side, "s")):
+    for part, tag in ((beh, "b"), (plan, "p"), (side, "s")):
         if not part:
             continue
-        s, e, rejects = validate(ctx, part, "prop", tag, max_rejects=8 if tag == "m" else 60)
+        s, e, rejects = validate(ctx, part, "prop", tag, max_rejects={"b": 6, "p": 14, "s": 60}[tag])
         nseg, nev = nseg + s, nev + e
         for seg, idx in rejects:
             ev = json.loads(seg[idx - 1])
             violations.append({"sig": classify(seg, idx),
                                "what": "decoder observation not allowed by the Prop layer of Decoders.tla: %s" % seg[idx - 1][:600],
                                "replay_obj": {"property": "C19", "seed": ctx.seed, "event": ev, "tier": ctx.tier}})
-    _, _, drift = validate(ctx, main, "impl", "d", max_rejects=6)
+    _, _, drift = validate(ctx, beh, "impl", "d", max_rejects=6)
     for seg, idx in drift:
         log("NOTE drift: real decoder deviates from the transcription at %s" % seg[idx - 1][:400])
     by, outs, distinct, worst = {}, {}, set(), {}
@@ -166,7 +168,8 @@ def selftest(ctx):
     cargo_build(ctx, ["decoders"])
     base = ["--behaviours", ctx.path("behs.jsonl"), "--per-class", 2, "--pb-rounds", 1, "--pb-extra", 2, "--noise-frames", 6, "--seed", ctx.seed]
     harness(ctx, "decoders", base + ["--out", ctx.path("good.ndjson")])
-    good, _ = partition(read_lines(ctx.path("good.ndjson")))
+    gb, gp, _ = partition(read_lines(ctx.path("good.ndjson")))
+    good = gb + gp
     p = ctx.path("good_main.ndjson")
     open(p, "w").write("\n".join(good) + "\n")
     if tlc_trace(ctx, TRACE[0], TRACE[1], p) is not None:
@@ -206,7 +209,8 @@ def selftest(ctx):
             break
     for fault in ("ld-panic", "sub-overalloc", "rt-break"):
         harness(ctx, "decoders", base + ["--out", ctx.path("f.ndjson")], env={"VERIF_FAULT": fault})
-        fl, _ = partition(read_lines(ctx.path("f.ndjson")))
+        fb, fp, _ = partition(read_lines(ctx.path("f.ndjson")))
+        fl = fb + fp
         open(ctx.path("f_main.ndjson"), "w").write("\n".join(fl) + "\n")
         r = tlc_trace(ctx, TRACE[0], TRACE[1], ctx.path("f_main.ndjson"))
         log("selftest fault %s -> %s" % (fault, "rejected at line %s" % r if r else "ACCEPTED"))
@@ -244,7 +248,7 @@ def replay(ctx, path):
     lines = read_lines(ctx.path("r.ndjson"))
     want = classify([json.dumps(ev)], 1)
     hits = 0
-    for part, tag in zip(partition(lines), ("m", "s")):
+    for part, tag in zip(partition(lines), ("b", "p", "s")):
         if not part:
             continue
         _, _, rej = validate(ctx, part, "prop", "r" + tag, max_rejects=60)
